@@ -169,7 +169,28 @@ def run_source(src, names, case):
     return list(fails.values()), info
 
 
+def cold_start():
+    """-> (failures, info): audit a fresh interpreter from its very first eval (sqv/cold_c02.py)"""
+    import json
+    import subprocess
+    import sys
+    case = {'cold': True}
+    pr = subprocess.run([sys.executable, '-m', 'sqv.cold_c02'], cwd=core.VERIF, capture_output=True, text=True, timeout=300,
+                        env=dict(os.environ))
+    if pr.returncode != 0:
+        raise core.HarnessError(f'cold-start audit failed: {pr.stderr[-1500:]}')
+    d = json.loads(pr.stdout)
+    fails = {}
+    for ev, detail, src in d['flagged']:
+        sig = f'audit:{ev}:cold-start'
+        if sig not in fails:
+            fails[sig] = Failure(sig, f'in a fresh interpreter, evaluating {src!r} raised the audit event {ev} {detail}', case)
+    return list(fails.values()), d
+
+
 def run_case(case):
+    if case.get('cold'):
+        return cold_start()[0]
     return run_source(case['src'], core.dec(case['names']), case)[0]
 
 
@@ -231,12 +252,21 @@ def jobs(tier, seed):
     per = 1500 if tier == 'quick' else 70000
     js = [('sweep', core.derive_seed(seed, 'c02', i), per) for i in range(15)]
     js.append(('typed', core.derive_seed(seed, 'c02t'), 3000 if tier == 'quick' else 60000))
+    js.append(('cold', 0, 0))
     return js
 
 
 def run_job(job):
     kind, seed, n = job
     st = Stats()
+    if kind == 'cold':
+        fails, d = cold_start()
+        st.add('cold_start_programs', d['programs'])
+        st.extra['cold_start_events_tallied'] = d['tally']
+        st.case(key='cold-start', nontrivial=False, classes=('cold-start',))
+        for f in fails:
+            st.fail(f)
+        return st
     setup_worker()
     import smartquery.functions as Fn
     table = sorted(Fn.FUNCTIONS)
